@@ -115,7 +115,7 @@ def finding_key(case, f):
     The panicking FUNCTION is part of the class (AUDIT-2 finding 16: without it every index-out-of-range of an extractor that already has a
     known class was absorbed): `at-<function>` = the frame that panicked (own or third-party code), without its package path. Exception: a
     fault in mmap'ed memory (fatal, "fault address") happens wherever a corrupt BoltDB page is touched first, so that class is keyed by the
-    extractor function that entered the decoder (`via-<function>`)."""
+    third-party library in which the fault occurred (`in-<library>`), like hang / oom."""
     ext = (case.split(' ') + ['?', '?'])[1]
     st = f.get('st', '?')
     parts = [ext.replace('/', '-'), st]
@@ -123,8 +123,12 @@ def finding_key(case, f):
         kind = msg_kind(_unhex(f.get('msg')))
         parts.append(kind)
         fn = lambda x: _slug(re.sub(r'^.*/', '', _unhex(x)))[:60]
-        if kind == 'fault-address' and f.get('via'):
-            parts.append('via-' + fn(f.get('via')))
+        if kind == 'fault-address':
+            # keyed like hang / oom: by the library whose code touched the unmapped page (the extractor function that entered the decoder
+            # varies with which bucket of the damaged database is walked first: three different ones were seen for one root cause)
+            lib_ = _unhex(f.get('lib'))
+            third = bool(lib_) and '.' in lib_.split('/')[0] and not lib_.startswith('github.com/google/osv-scalibr')
+            parts.append('in-' + (_slug(lib_.split('/')[-1]) if third else 'own'))
         elif f.get('at'):
             parts.append('at-' + fn(f.get('at')))
     elif st in ('hang', 'oom'):
